@@ -150,9 +150,11 @@ def check(run):
         d = wb.to_dict(explicit_blanks=wb.explicit)
         case = {'workbook': {k_: (str(v) if isinstance(v, bookgen.Err) else v) for k_, v in d.items()}, 'stream': 'range-template'}
         how = rnd.choice((['range', 'sub-range', 'name'] if name else ['range', 'sub-range']) if (wb.explicit and not wb.has_array) else (['range', 'name'] if name else ['range']))
-        rr = R if how != 'sub-range' else (0, 2, 3, 1, 1)
+        if wb.cellname and rnd.random() < 0.5:
+            how = 'cell-name'
+        rr = (0, 3, 3, 1, 1) if how == 'cell-name' else R if how != 'sub-range' else (0, 2, 3, 1, 1)
         vals = [[rnd.choice([4, 6, 20, 30, 0, 8.5])] for _ in range(rr[2] - rr[1] + 1)]
-        key = wb.name_key(name) if how == 'name' else '%s!%s' % (wb.sheet_id(0), wb.ref_text(rr))
+        key = wb.name_key(wb.cellname) if how == 'cell-name' else wb.name_key(name) if how == 'name' else '%s!%s' % (wb.sheet_id(0), wb.ref_text(rr))
         ov_impl = {key: [[bookrun.to_impl_value(v) for v in row] for row in vals]}
         ov_cells = [(0, rr[1] + i, 1, vals[i][0]) for i in range(len(vals))]
         case.update(overrides={key: str(vals)}, kinds=[how], history=[])
